@@ -1,7 +1,7 @@
 """Property -> rule list, with the text that goes into the evidence."""
 import importlib
 
-RULE_MODULES = ["su", "w", "xn"]
+RULE_MODULES = ["su", "w", "xn", "gv"]
 
 COMMON_ASSUME = [
     "clang 14's parse, constant evaluation and CFG of each unit are faithful to the C semantics",
@@ -18,45 +18,98 @@ def all_rules():
     return out
 
 
+def _p(rules, text, notdec):
+    return {"rules": rules,
+            "explanation": "Static rules over the AST, per-function CFG and whole-program call graph "
+                           "of the current /repo tree (nothing is executed). Decided: " + text +
+                           " Not decided: " + notdec,
+            "assumptions": COMMON_ASSUME}
+
+
 PROPS = {
-    "C01": {
-        "rules": ["W1", "W2", "W3", "W7"],
-        "explanation": "wip",
-        "assumptions": COMMON_ASSUME,
-    },
-    "C02": {
-        "rules": ["W6", "S1", "S2", "S3", "N2"],
-        "explanation": "wip",
-        "assumptions": COMMON_ASSUME,
-    },
-    "C06": {
-        "rules": ["X1", "X2", "X3", "X4", "U1"],
-        "explanation": "wip",
-        "assumptions": COMMON_ASSUME,
-    },
-    "C20": {
-        "rules": ["N1", "N2", "N3", "N4", "N5", "S3"],
-        "explanation": "wip",
-        "assumptions": COMMON_ASSUME,
-    },
-    "C03": {
-        "rules": ["W3", "W4", "W5", "W6"],
-        "explanation": "wip",
-        "assumptions": COMMON_ASSUME,
-    },
-    "C04": {
-        "rules": ["U1", "U2", "U3", "U4", "S1", "S2", "S4"],
-        "explanation": (
-            "Static rules over the AST/CFG/call graph of the current tree decide the structural "
-            "necessary conditions of undo/redo exactness: no splice of the line table without a "
-            "dominating log entry carrying the same position/count/text (U1,U2); undo and redo "
-            "replay dual arguments of what lbuf_opt recorded, one sequence number per loop, "
-            "failing before any splice at the ends of history (U3); a new edit cuts the redo "
-            "branch before appending (U4); one sequence number per top-level command and none "
-            "inside a line command (S1,S2,S4). Not decided: equality of texts along arbitrary "
-            "undo/redo walks (argued from these by induction in DESIGN.md)."),
-        "assumptions": COMMON_ASSUME,
-    },
+    "C01": _p(["W1", "W2", "W3", "W7", "G1"],
+              "every line of the range is emitted exactly once and counted exactly once on every "
+              "acyclic path of lbuf_wr's loop, the loop covers [beg,end), each flush resets the "
+              "fill, and fill+len <= sizeof(batch) is proved by the linear prover from the path "
+              "guards for all values (W1); a successful return truncates to the counted length "
+              "after the last write (W2); short writes resume at the written offset, errors end "
+              "the retry loop and are reported (W3); the read loop appends each positive chunk "
+              "with its own count, splices only at EOF and reports read errors (W7); the two "
+              "parallel line arrays grow and move together (G1).",
+              "byte-for-byte equality of read-then-write (needs contents); line re-termination and "
+              "sbuf capacity are decided under C05 (B3/B4)."),
+    "C02": _p(["W6", "S1", "S2", "S3", "N2", "W4"],
+              "the saved mark moves only in lbuf_saved (or to 'always dirty' in lbuf_unsaved), the "
+              "dirty test is `seq of undo position != saved seq`, lbuf_saved bumps afterwards (S1); "
+              "every top-level command bumps the command counter (S2); in ec_write the saved mark, "
+              "mtime and rename happen only after lbuf_save's success edge, for the buffer's own "
+              "path, and the mark only for a whole-buffer range, a partial own-path write ends "
+              "dirty (W6); quit walks all 16 slots and tests every allocated one unless a/! is "
+              "given, xquit is set only in ec_quit after the walk, :b :e :! :make reach their "
+              "discarding effects only past bufs_modified(0)==0 or a documented bypass (S3); "
+              "failed saves never reach those effects (W4).",
+              "that sequence numbers line up across arbitrary undo/redo/save interleavings (the "
+              "induction over histories is argued in DESIGN.md from S1+S2, not mechanised)."),
+    "C03": _p(["W3", "W4", "W5", "W6"],
+              "both overwrite guards (newer on disk; exists but foreign) sit on every path to "
+              "open() unless force, their comparisons have the right sense for ts in {-1,0,>0}, "
+              "callers pair a path with its own timestamp (W5); every open/write/close/lbuf_wr/"
+              "lbuf_save/ec_write failure is tested with a test that singles out failure and its "
+              "fail edge reaches only failing returns and no saved-state effect (W4, W6); short "
+              "writes are retried (W3).",
+              "file content after a mid-write fault and that a later retry succeeds (runtime fault "
+              "sequences); ftruncate faults are outside the property's quantifier."),
+    "C04": _p(["U1", "U2", "U3", "U4", "S1", "S2", "S4"],
+              "no splice of the line table without a dominating log entry carrying the same "
+              "position/count/text (U1,U2); undo and redo replay dual arguments of what lbuf_opt "
+              "recorded, loop over exactly one sequence number, move the cursor the right way and "
+              "fail before any splice at the ends of history (U3); a new edit cuts the redo branch "
+              "before appending (U4); one sequence number per top-level command and none inside a "
+              "line command (S1,S2,S4).",
+              "equality of texts along arbitrary undo/redo walks (argued by induction on the log "
+              "in DESIGN.md, not mechanised); mark restoration."),
+    "C06": _p(["X1", "X2", "X3", "X4", "U1"],
+              "all 14 ex_region call sites test the result and the fail edge reaches only failing "
+              "returns with no effect on buffer, registers, marks or current line (address 0 "
+              "tolerated only for a/i/c with both bounds 0) (X1); every path of ex_region to "
+              "`return 0` establishes 0 <= beg <= end <= $ by the linear prover (X2); handlers "
+              "splice only ranges built from the validated pair (X3); a failed search or unset "
+              "mark yields a value ex_region rejects and that differs from address 0 (X4); lines "
+              "change only through the one logged splice primitive (U1).",
+              "equality of resulting text, output and current line with the reference editor."),
+    "C07": _p(["V1", "V2"],
+              "no motion entry point (vi_motion, vi_motionln, all of mot.c) reaches a buffer "
+              "mutator in the call graph with function-pointer parameters bound per call site "
+              "(V2); every iteration of the vi loop passes vi_wfix before the final cursor "
+              "placement, vi_wfix leaves the row in [0,max(0,$)] on every path (linear prover) and "
+              "re-clamps the column off the terminator, and after a motion xoff is a ren_noeol "
+              "value (V1).",
+              "where a motion lands (behavioural, over runtime text)."),
+    "C09": _p(["V3"],
+              "every case of the vi command switch (and every second key of g) whose calls reach "
+              "lbuf_edit without crossing ex_command/undo/redo is a member of the string that "
+              "gates the copy into the repeat buffer, and the repeat length is the copied length "
+              "(V3).",
+              "equality of the repeated and the retyped execution (relational, behavioural); the "
+              "bounds of the recording/push-back buffers are decided under C05 (B1)."),
+    "C15": _p(["S4", "G1", "G2"],
+              "nothing reachable from a line-command handler or from ex_exec (dispatch edge "
+              "excluded) bumps the sequence number, and ec_glob nests through ex_exec (S4: the "
+              "whole global is one undo step); the global-mark array is moved, grown and cleared "
+              "in lock-step with the line table (G1: marks travel with lines, inserted lines are "
+              "unmarked); depth counter and leftover marks are restored on every exit, marking "
+              "covers (beg,end), set/get use one bit and get clears it (G2).",
+              "the visiting order and once-ness as such (follows from G1+G2, argued not mechanised)."),
+    "C20": _p(["N1", "N2", "N3", "N4", "N5", "S3"],
+              "only the bufs_* helpers (plus the three named slot-0 stores) write the buffer "
+              "table (N1); every bufs_switch argument is proved within [0,15] from interval "
+              "summaries of bufs_find/bufs_findroom/bufs_open and dominating tests, block moves "
+              "stay inside the table (N2); ec_edit never reaches lbuf_rd after finding the path "
+              "open, and reads only into a fresh slot or as a reload (N3); switch = save, rotate "
+              "idx to the front, load (N4); saved view fields = restored = initialised (N5); quit "
+              "refuses on any dirty slot (S3).",
+              "that arbitrary switch sequences preserve each buffer's text (follows from N1+U1, "
+              "argued not mechanised)."),
 }
 
 NOT_APPLICABLE = {
